@@ -523,3 +523,11 @@ def r17_hoist_closure(text, name):
     indent = _indent_of(text, ind_start)
     new = text[:ind_start] + 'let %s = %s;\n%s' % (name, closure, indent) + text[ind_start:k] + name + text[c + 1:]
     return new, 1
+
+
+@rule('R18')
+def r18_slice_pattern(text):
+    """match E { [b] => A, _ => B, }   ->   { let vt_s = E; if vt_s.len() == 1 { let b = &vt_s[0]; A } else { B } }
+    (desugaring of the one-element slice pattern; Verus has no slice patterns)"""
+    pat = re.compile(r'match ([^\n{]+?) \{\s*\[(%s)\] => ([^\n]+),\s*_ => ([^\n]+),\s*\}' % IDENT)
+    return pat.subn(lambda m: '{ let vt_s = %s; if vt_s.len() == 1 { let %s = &vt_s[0]; %s } else { %s } }' % m.groups(), text)
